@@ -1,8 +1,78 @@
 (** C05: discriminant (statements only; proofs in Refine/ResProofs*.v). *)
 From RNT.Model Require Import Base Poly Resultant.
-From RNT.Refine Require Import ResProofs.
+From RNT.Refine Require Import ResProofs ResProofs2 ResProofs3.
 Open Scope Z_scope.
+
+(** [P] the sign flip of the code ([m % 4 == 2 || m % 4 == 3]) is the parity of m(m-1)/2. *)
+Theorem sign_rule : forall m, 0 <= m ->
+  ((m mod 4 =? 2) || (m mod 4 =? 3))%bool = Z.odd (m * (m - 1) / 2).
+Proof. exact ResProofs3.sign_rule. Qed.
 
 (** [P] [assert!(!f.is_zero())]. *)
 Theorem discriminant_zero : forall m, discriminant m [] = (true, Panic PAssert).
 Proof. exact ResProofs.discriminant_zero. Qed.
+
+(** [P] as coded, a non-zero constant gives 0 (outside the property: deg f >= 1). *)
+Theorem discriminant_const : forall m c, c <> 0 -> discriminant m [c] = (true, Done 0).
+Proof. exact ResProofs3.discriminant_const. Qed.
+
+(** [P] degree 1: discriminant 1, flag true, no panic, either mode. *)
+Theorem discriminant_linear : forall m b0 a1, a1 <> 0 -> discriminant m [b0; a1] = (true, Done 1).
+Proof. exact ResProofs3.discriminant_linear. Qed.
+Example linear_ex : discriminant Checked [24; 1771] = (true, Done 1). Proof. reflexivity. Qed.
+
+(** [P] enough fuel for every coefficient list. *)
+Theorem discriminant_no_outoffuel : forall m f, snd (discriminant m f) <> OutOfFuel.
+Proof. exact ResProofs.discriminant_no_outoffuel. Qed.
+
+(** [C] canonical non-zero input, flag true => a value is returned.
+    Full statement (not proved): the flag is always true. *)
+Theorem discriminant_flag_no_panic_partial : forall m f o,
+  f <> [] -> canonb f = true -> len_ok f = true ->
+  discriminant m f = (true, o) -> exists v, o = Done v.
+Proof. exact ResProofs3.discriminant_flag_no_panic. Qed.
+
+(** [C] when the run returns [d] with flag true, [d * lc f = (-1)^(n(n-1)/2) * r] where [r] is the
+    value [resultant f f'] returned (also with flag true), n = deg f.
+    Full statement (not proved): r = det Sylvester(f, f'), see C04. *)
+Theorem discriminant_partial : forall m f d,
+  discriminant m f = (true, Done d) ->
+  exists r, resultant m f (pdiff opsZ f) = (true, Done r) /\
+            d * zlast f = (if Z.odd (pdeg f * (pdeg f - 1) / 2) then - r else r).
+Proof. exact ResProofs3.discriminant_partial. Qed.
+Example partial_ex : discriminant Checked [3; -2; 1; 2] = (true, Done (-1132)) /\ canonb [3; -2; 1; 2] = true.
+Proof. split; vm_compute; reflexivity. Qed.
+Example partial_ex2 : discriminant Wrapping [24; 1771; 31] = (true, Done (1771 * 1771 - 4 * 24 * 31)).
+Proof. vm_compute. reflexivity. Qed.
+
+(** ** Specification level (MathComp). The classical Res(f, f') is [resultant f' f], see Props/C04.v. *)
+From mathcomp Require Import all_ssreflect ssralg poly matrix mxpoly ssrZ.
+From RNT.Refine Require Import PolyRefine ResInt.
+Import GRing.Theory.
+Local Open Scope ring_scope.
+
+(** [C] [discriminant_det_partial]: deg f >= 1, canonical input. If the run returns [d] with exactness flag
+    true, then d * lc f = (-1)^(n(n-1)/2) * det Sylvester(f, f'), i.e. d is the discriminant
+    (-1)^(n(n-1)/2) Res(f, f') / lc f of the property text (lc f <> 0 in the integral domain Z).
+    Full statement (not proved): the flag is always true. *)
+Theorem discriminant_det_partial : forall m (f : seq Z) d,
+  canonb f = true -> len_ok f = true -> (1 < size f)%N ->
+  discriminant m f = (true, Done d) ->
+  d * lead_coef (Poly f) =
+  (-1) ^+ (((size f).-1 * (size f).-1.-1) %/ 2) * \det (Sylvester_mx (Poly f)^`() (Poly f)).
+Proof. exact ResInt.discriminant_det_partial. Qed.
+Example det_partial_ex :
+  let f := [:: 1; 9; 0; 1]%Z in
+  canonb f = true /\ len_ok f = true /\ discriminant Checked f = (true, Done (-2943)%Z).
+Proof. repeat split; vm_compute; reflexivity. Qed.
+
+(** [C] "zero exactly when f has a repeated factor": under the flag, d = 0 iff f and f' have a common
+    factor of positive degree (MathComp [gcdp], [resultant_eq0]). *)
+From mathcomp Require Import polydiv.
+Import Pdiv.Idomain.
+Theorem discriminant_eq0_partial : forall m (f : seq Z) d,
+  canonb f = true -> len_ok f = true -> (1 < size f)%N ->
+  discriminant m f = (true, Done d) ->
+  (d == 0) = (1 < size (gcdp (Poly f)^`() (Poly f)))%N.
+Proof. exact ResInt.discriminant_eq0_partial. Qed.
+Example eq0_ex : discriminant Checked [:: 1; 2; 1]%Z = (true, Done 0%Z). Proof. vm_compute. reflexivity. Qed.
